@@ -6,13 +6,22 @@ executors read the catalog copy, so an unsynchronised change leaves two differen
 (b) DROP TABLE passes through the purge of the table's indexes in catalog and storage; DROP INDEX
 removes the entry from catalog and storage; (c) CREATE INDEX registers the index in the catalog
 and in storage on every Ok path, and a failure of the storage step does not leave the catalog
-entry behind.  Does NOT decide identifier case handling."""
+entry behind.  (d) functions that look a table or index up in
+the same registry derive their keys the same way (sibling probe sequences agree; the writer's key
+form is one the readers probe; index registries are touched only through normalize_index_name or
+through keys read from the registry itself); (e) CREATE INDEX tests the storage registry (the one
+whose insertion fails on duplicates) for the name before it touches the catalog; (f) no
+order-changing operation is applied to Row.values (columns are positional).
+Does NOT decide which case rule is right, only that all parties use the same one."""
 from ..engine.callgraph import CallGraph
 from ..engine.paths import Follow, ok_exit_reachable, err_exits_reachable, success_starts, err_origin
 from ..engine.facts import callee_name
 from . import matrix as M
 
 UNITS = M.EXECUTOR_UNITS
+import re
+from ..engine.symexpr import Sym
+from ..engine.cfg import cfg, op_local
 EX = 'vibesql_executor::'
 CAT_T = 'vibesql_catalog::store::tables::<impl vibesql_catalog::store::Catalog>::'
 CAT_I = 'vibesql_catalog::store::indexes::<impl vibesql_catalog::store::Catalog>::'
@@ -117,3 +126,239 @@ def run(ctx):
     ins = [t for _, t in dct.calls() if (callee_name(t) or '').startswith('std::collections::hash::map::HashMap::<K, V, S, A>::insert')]
     if not ins or not any(callee_name(t) == M.T + 'new' for _, t in dct.calls()):
         ctx.finding('c/Database::create_table/storage', 'Database::create_table no longer inserts a fresh Table::new into the storage map', dct.loc)
+
+
+    key_agreement(ctx)
+    create_index_precheck(ctx)
+    positional_rows(ctx)
+
+
+# --------------------------------------------------------------------------- (d) registry key agreement
+MAP_OPS = ('get', 'get_mut', 'contains_key', 'remove', 'insert', 'entry')
+
+
+def probes(f):
+    """[(block, op, map_sym, key_sym)] for hash-map accesses of f, arguments renamed to $1.. in order of appearance"""
+    s = Sym(f)
+    out = []
+    for i, t in f.calls():
+        cn = callee_name(t) or ''
+        op = cn.rsplit('::', 1)[-1].split('<')[0]
+        if ('HashMap' in cn or 'BTreeMap' in cn) and op in MAP_OPS and len(t['args']) >= 2:
+            out.append((i, op, s.op(t['args'][0]), s.op(t['args'][1])))
+    return out
+
+
+def rename_args(f, exprs):
+    names = [f.names.get(l) for l in range(1, f.argc + 1) if f.names.get(l) and f.names.get(l) != 'self'
+             and ('str' in f.locals[l] or 'String' in f.locals[l] or 'Schema' in f.locals[l] or 'Metadata' in f.locals[l])]
+    order = []
+    for e in exprs:
+        for m in re.finditer(r'[A-Za-z_][A-Za-z_0-9]*', e):
+            if m.group(0) in names and m.group(0) not in order:
+                order.append(m.group(0))
+    out = []
+    for e in exprs:
+        for k, n in enumerate(order):
+            e = re.sub(r'(?<![A-Za-z_0-9.])' + re.escape(n) + r'(?![A-Za-z_0-9])', f'${k+1}', e)
+        out.append(e.replace('self.', ''))
+    return out
+
+
+def expand(e):
+    """phi-free alternatives of an expression"""
+    k = e.find('phi(')
+    if k < 0:
+        return {e}
+    depth = 0; j = k + 4; parts = []; start = j
+    while j < len(e):
+        c = e[j]
+        if c == '(':
+            depth += 1
+        elif c == ')':
+            if depth == 0:
+                break
+            depth -= 1
+        elif depth == 0 and e.startswith(' | ', j):
+            parts.append(e[start:j]); start = j + 3; j += 2
+        j += 1
+    parts.append(e[start:j])
+    out = set()
+    for alt in parts:
+        out |= expand(e[:k] + alt + e[j + 1:])
+    return out
+
+
+def ordered_keys(f, rows):
+    """distinct keys in probe order (dominance depth of the first probe)"""
+    g = cfg(f)
+    first = {}
+    for (b, op, mp, key) in rows:
+        first.setdefault(key, b)
+    blocks = list(first.values())
+    return [k for k, b in sorted(first.items(), key=lambda kv: sum(1 for x in blocks if g.dominates(x, kv[1])))]
+
+
+INDEX_KEY_EXC = {
+    'vibesql_storage::database::indexes::index_manager::IndexManager::spill_index_to_disk':
+        'private helper; both callers pass a key just read from the registry itself (coldest index)',
+}
+
+
+def key_agreement(ctx):
+    prog = ctx.prog
+    ctx.rule('C33.d', 'sibling lookups of one registry derive their keys identically: Database::get_table / get_table_mut probe the same '
+             'key forms in the same order; the Operations functions that resolve a table in the `tables` map agree with each other; '
+             'the key form written by Database::create_table is probed by every one of them and removed by Operations::drop_table; '
+             'IndexManager.indexes/index_data and Operations.spatial_indexes are accessed only through normalize_index_name(arg) or '
+             'through keys read from the registry itself; Catalog.indexes keys are "{table}.{index}" on every access')
+    D = 'vibesql_storage::database::core::Database::'
+
+    def sig(f, pred):
+        rows = [r for r in probes(f) if pred(r)]
+        keys = ordered_keys(f, rows)
+        return rename_args(f, keys)
+
+    # d1 Database::get_table vs get_table_mut
+    g1 = {n: sig(ctx.fn(D + n), lambda r: r[2].endswith('tables')) for n in ('get_table', 'get_table_mut')}
+    ctx.instance('d/Database::get_table~get_table_mut', {'rule': 'C33.d', 'probe_sequences': g1})
+    ctx.require(len(g1['get_table']) >= 2, 'Database::get_table: probe sequence not recognised')
+    if g1['get_table'] != g1['get_table_mut']:
+        ctx.finding('d/Database/get_table-vs-get_table_mut', 'Database::get_table and Database::get_table_mut resolve a table name through '
+                    f'different probe sequences ({g1["get_table"]} vs {g1["get_table_mut"]}): with two tables whose names differ only '
+                    'in case, reads and writes of the same statement hit different tables', ctx.fn(D + 'get_table_mut').loc)
+    # d2 Operations resolvers
+    ops = [f for f in prog.fns.values() if f.nice.startswith(M.OPS) and not f.is_closure() and f.unit == 'vibesql_storage']
+    g2 = {}
+    for f in ops:
+        sg = sig(f, lambda r: r[2] == 'tables' and r[1] in ('get', 'get_mut', 'contains_key'))
+        if sg:
+            g2[f.nice.rsplit('::', 1)[1]] = sg
+    ctx.instance('d/Operations-table-resolvers', {'rule': 'C33.d', 'probe_sequences': g2})
+    ctx.floor('C33.d Operations functions resolving a table in the tables map', len(g2), 4)
+    ref = g2.get('insert_row')
+    ctx.require(ref is not None, 'Operations::insert_row: table lookup not recognised')
+    for n, sg in sorted(g2.items()):
+        if sg != ref:
+            ctx.finding(f'd/Operations/{n}', f'Operations::{n} resolves the table name as {sg}, Operations::insert_row as {ref}: the two '
+                        'can address different entries (or none) of the table map for the same name', prog.fn(M.OPS + n).loc)
+    # d3 writer key form
+    ct = ctx.fn(D + 'create_table')
+    wk = [r for r in probes(ct) if r[1] == 'insert' and r[2].endswith('tables')]
+    ctx.require(len(wk) == 1, 'Database::create_table: insertion into the table map not recognised')
+    wform = wk[0][3].replace('schema.name', '$1').replace('self.', '')
+    walts = expand(wform)
+    ctx.instance('d/writer-key', {'rule': 'C33.d', 'writer_key_alternatives': sorted(walts)})
+    readers = dict(g1); readers.update(g2)
+    dt = ctx.fn(M.OPS + 'drop_table')
+    readers['drop_table'] = rename_args(dt, [r[3] for r in probes(dt) if r[2] == 'tables' and r[1] == 'remove'])
+    for n, sg in sorted(readers.items()):
+        have = set()
+        for k in sg:
+            have |= expand(k)
+        # `normalized_name*`-style leftovers: a local with many definitions, cannot be compared
+        if any('*' in k for k in have):
+            have |= {re.sub(r'[a-z_]+\*', 'phi', k) for k in have}
+        missing = [w for w in walts if w not in have and not any(_unify(w, h) for h in have)]
+        if missing:
+            ctx.finding(f'd/writer-key/{n}', f'{n} never probes the key form {missing} under which Database::create_table stores a table', None)
+    # d4 index registries
+    n_idx = 0
+    for f in prog.fns.values():
+        if f.unit != 'vibesql_storage' or f.is_closure() or '/tests' in f.file or '::tests::' in f.nice:
+            continue
+        for (b, op, mp, key) in probes(f):
+            if not re.search(r'(^|\.)(indexes|index_data|spatial_indexes)$', mp) or 'IndexManager' not in f.nice and 'Operations' not in f.nice:
+                continue
+            if f.nice.startswith('vibesql_storage::table::'):
+                continue
+            n_idx += 1
+            self_key = bool(re.search(r'iter\((self\.)?(indexes|index_data|spatial_indexes)\)', key))
+            norm = bool(re.match(r'^normalize_index_name\([A-Za-z_][A-Za-z_0-9.]*\)$', key))
+            if self_key or norm:
+                continue
+            if f.nice in INDEX_KEY_EXC:
+                ctx.exempt(f'd/index-key/{f.nice}', INDEX_KEY_EXC[f.nice])
+                continue
+            ctx.finding(f'd/index-key/{f.nice}/{op}', f'{f.nice}: {mp}.{op} is keyed by `{key}`, not by normalize_index_name(..) like the '
+                        'other accesses of this registry', f'{f.file}:{f.blocks[b]["t"]["l"]}')
+    ctx.floor('C33.d keyed accesses of the storage index registries', n_idx, 25)
+    # d5 catalog index keys
+    qn = ctx.fn('vibesql_catalog::index::IndexMetadata::qualified_name')
+    from ..engine.fmt import format_sites
+    qt = [s_['text'] for s_ in format_sites(prog, qn)]
+    ctx.instance('d/catalog-index-key', {'rule': 'C33.d', 'IndexMetadata::qualified_name': qt})
+    if qt != ['{}.{}']:
+        ctx.finding('d/catalog-index-key/qualified_name', f'IndexMetadata::qualified_name builds {qt}; Catalog::get_index/drop_index look up "{{}}.{{}}"', qn.loc)
+    sq = Sym(qn)
+    for n in ('get_index', 'drop_index'):
+        f = ctx.fn(CAT_I + n)
+        ks = rename_args(f, [r[3] for r in probes(f) if r[2].endswith('indexes')])
+        if ks != ["fmt('{}.{}'; $1, $2)"]:
+            ctx.finding(f'd/catalog-index-key/{n}', f'Catalog::{n} keys the index map by {ks}; add_index stores under "{{table}}.{{index}}"', f.loc)
+
+
+def _unify(w, h):
+    """writer form w matches reader form h up to the name of the catalog handle (self.catalog / catalog)"""
+    return w.replace('catalog', 'C') == h.replace('catalog', 'C')
+
+
+# --------------------------------------------------------------------------- (e) CREATE INDEX pre-check
+def create_index_precheck(ctx):
+    ctx.rule('C33.e', 'CreateIndexExecutor::execute: Database::index_exists and spatial_index_exists (the storage registry, global by '
+             'index name) are consulted, with an error exit on the true branch, before Catalog::add_index on every path')
+    from ..engine.paths import search
+    cie = ctx.fn(EX + 'index_ddl::create_index::CreateIndexExecutor::execute')
+    adds = {i for i, t in cie.calls() if callee_name(t) == CAT_I + 'add_index'}
+    from ..engine.paths import switch_target
+    short_circuit = set()
+    for chk in ('index_exists', 'spatial_index_exists'):
+        cb = {i for i, t in cie.calls() if callee_name(t) == M.D + chk}
+        ctx.instance(f'e/CreateIndexExecutor/{chk}')
+        # `a || b`: the second test is skipped on the true edge of the first (which already decides "exists")
+        reached, _ = search(cie, [0], cb | short_circuit, loop_model=False)
+        for b in cb:
+            nxt = cie.blocks[cie.blocks[b]['t']['to']]['t']
+            if nxt['k'] == 'switch':
+                short_circuit.add(switch_target(nxt, 1))
+        if not cb or (reached & adds):
+            ctx.finding(f'e/CreateIndexExecutor/{chk}', f'CREATE INDEX registers the index in the catalog without first asking the storage '
+                        f'registry ({chk}) whether the name is taken: the later storage step fails on a name used by another table and '
+                        'the catalog keeps an entry for an index that does not exist', cie.loc)
+
+
+# --------------------------------------------------------------------------- (f) positional rows
+ORDER_CHANGING = ('swap_remove', 'swap', 'reverse', 'sort', 'sort_by', 'sort_by_key', 'sort_unstable', 'sort_unstable_by',
+                  'sort_unstable_by_key', 'rotate_left', 'rotate_right', 'dedup', 'dedup_by', 'dedup_by_key')
+
+
+def positional_rows(ctx):
+    prog = ctx.prog
+    ctx.rule('C33.f', 'Row.values is positional (index = column position in the schema): no order-changing Vec/slice operation is '
+             'applied to it anywhere in the storage and executor crates; the matcher is kept live by the Vec::remove in Row::remove_value')
+    live = 0
+    for f in prog.fns.values():
+        if f.unit not in ('vibesql_storage', 'vibesql_executor') or '/tests' in f.file or '::tests::' in f.nice:
+            continue
+        s = None
+        for i, t in f.calls():
+            cn = callee_name(t) or ''
+            op = cn.rsplit('::', 1)[-1].split('<')[0]
+            if not (cn.startswith('alloc::vec::Vec') or cn.startswith('core::slice::')) or not t['args']:
+                continue
+            if op not in ORDER_CHANGING and op != 'remove':
+                continue
+            s = s or Sym(f)
+            recv = s.op(t['args'][0])
+            base = recv.split('.')[0]
+            is_row = recv.endswith('.values') and ((f.self_adt or '').endswith('row::Row') and base == 'self' or
+                                                   any(n == base and 'vibesql_storage::row::Row' in f.locals[l] for l, n in f.names.items()))
+            if not is_row:
+                continue
+            live += 1
+            if op == 'remove':
+                continue
+            ctx.finding(f'f/{f.nice}/{op}', f'{f.nice}: {op} on Row.values changes the order of the remaining columns; the values no longer '
+                        'line up with the schema', f'{f.file}:{t["l"]}')
+    ctx.instance('f/Row.values', {'rule': 'C33.f', 'positional_remove_sites_seen_by_matcher': live})
+    ctx.floor('C33.f matcher control: Vec::remove on Row.values', live, 1)
